@@ -487,6 +487,8 @@ def clause_f(ctx, P):
 def run(ctx, P):
     from . import r2
     r2.compression_key_is_exact(ctx, P, "C02g")
+    from . import r4
+    r4.every_section_decoded(ctx, P, "C02h")
     clause_a(ctx, P)
     clause_b(ctx, P)
     clause_cd(ctx, P)
